@@ -387,6 +387,102 @@ theorem C10_exp_raw_view_write (c : ECfg) (cap : Nat) (ops : List EOp) (i : Nat)
     have this' : ¬ i < (List.foldl estep (einit c cap) ops).view := this
     simp [erun, List.foldl_append, estep, rawWrite, this']
 
+/-! ### vectors with the wrong number of coordinates -/
+
+/-- The code never checks the length of a point; this is what happens instead, at every reachable state of a space with
+    `nd ≥ 2` axes (`…V` = the call with a vector of any length).  With the right length the call is the one the other
+    theorems talk about.  A one-element vector `[x]` is silently taken for `(x, …, x)` by assignment, `+=`, writes through the
+    view, difference vectors, `in_bounds` — and by the distance-based queries of a torus, while on a bounded space the same
+    queries raise `ValueError` (`scipy.cdist` counts columns).  Every other length raises `ValueError` everywhere, and
+    nothing is written. -/
+theorem C10_exp_vector_lengths (argpart : List Int → Nat → List Nat) (c : ECfg) (cap : Nat) (ops : List EOp) (a : Aid)
+    (p : Pos) :
+    let s := erun c cap ops
+    a ∈ s.active →
+    (p.length = c.dims.length →
+      agentSetV s a p = agentSet s a p ∧ agentIaddV s a p = agentIadd s a p ∧ (∀ i, rawWriteV s i p = rawWrite s i p) ∧
+      (∀ sub, distancesOfV s p sub = distancesOf s p sub) ∧ (∀ sub, diffsOfV s p sub = diffsOf s p sub) ∧
+      (∀ r, agentsInRadiusV s p r = .ok (agentsInRadius s p r)) ∧ (∀ k, kNearestV argpart s p k = kNearest argpart s p k)) ∧
+    (∀ x, p = [x] → c.dims.length ≠ 1 →
+      agentSetV s a p = agentSet s a (List.replicate c.dims.length x) ∧
+      agentIaddV s a p = agentIadd s a (List.replicate c.dims.length x) ∧
+      (∀ i, rawWriteV s i p = rawWrite s i (List.replicate c.dims.length x)) ∧
+      (∀ sub, diffsOfV s p sub = diffsOf s (List.replicate c.dims.length x) sub) ∧
+      inBoundsV s p = .ok (inBounds c.dims (List.replicate c.dims.length x)) ∧
+      (c.torus = true → (∀ sub, distancesOfV s p sub = distancesOf s (List.replicate c.dims.length x) sub) ∧
+        ∀ r, agentsInRadiusV s p r = .ok (agentsInRadius s (List.replicate c.dims.length x) r)) ∧
+      (c.torus = false → distancesOfV s p none = .error .value ∧ (∀ r, agentsInRadiusV s p r = .error .value) ∧
+        ∀ k, kNearestV argpart s p k = .error .value)) ∧
+    (p.length ≠ c.dims.length → p.length ≠ 1 →
+      agentSetV s a p = .error .value ∧ agentIaddV s a p = .error .value ∧
+      (∀ i, i < s.active.length → rawWriteV s i p = .error .value) ∧
+      distancesOfV s p none = .error .value ∧ diffsOfV s p none = .error .value ∧
+      (∀ r, agentsInRadiusV s p r = .error .value) ∧ (∀ k, kNearestV argpart s p k = .error .value) ∧
+      inBoundsV s p = .error .value ∧ torusCorrectV s p = .error .value) := by
+  dsimp only
+  intro ha
+  have h := erun_refines c cap ops
+  have hnd : (erun c cap ops).nd = c.dims.length := by simp [ESpace.nd, h.cfg]
+  have ht : (erun c cap ops).cfg.torus = c.torus := by rw [h.cfg]
+  obtain ⟨i0, hi0⟩ := (h.inv.mem_iff a).mp ha
+  have hg := h.inv.not_gone hi0
+  have hget : agentGet (erun c cap ops) a = .ok ((erun c cap ops).buf i0) := by
+    rw [agentGet_of_mem h.inv ha, getPos_of_idx h.inv hi0]
+  have hsub : ∀ {α : Type} (q : Pos) (sub : Option (List Aid)) (f : Pos → Except Err α)
+      (hf : ∀ l e, sub = some l → rowsOf (erun c cap ops) l = .error e → f q = .error e) (vc : Bool),
+      queryPoint (erun c cap ops) vc p = .ok q → withPoint (erun c cap ops) vc p sub f = f q := by
+    intro α q sub f hf vc hq
+    cases sub with
+    | none => simp only [withPoint, hq]
+    | some l =>
+      cases hr : rowsOf (erun c cap ops) l with
+      | error e => simp only [withPoint, hr]; exact (hf l e rfl hr).symm
+      | ok _ => simp only [withPoint, hr, hq]
+  have hdist : ∀ q l e, rowsOf (erun c cap ops) l = .error e → distancesOf (erun c cap ops) q (some l) = .error e := by
+    intro q l e hr; simp [distancesOf, hr, Except.map]
+  have hdiff : ∀ q l e, rowsOf (erun c cap ops) l = .error e → diffsOf (erun c cap ops) q (some l) = .error e := by
+    intro q l e hr; simp [diffsOf, hr, Except.map]
+  refine ⟨fun hl => ?_, fun x hx hn1 => ?_, fun hl h1 => ?_⟩
+  · have hb0 : bcast c.dims.length p = .ok p := by simp [bcast, hl]
+    have hb : bcast (erun c cap ops).nd p = .ok p := by rw [hnd]; exact hb0
+    have hq : ∀ vc, queryPoint (erun c cap ops) vc p = .ok p := by
+      intro vc; simp only [queryPoint, hnd, hb0, hl]; split <;> simp
+    refine ⟨by simp [agentSetV, agentSet, hg, hb], by simp [agentIaddV, agentIadd, hget, hb],
+      fun i => by simp only [rawWriteV, rawWrite, hb], fun sub => ?_, fun sub => ?_, fun r => ?_, fun k => ?_⟩
+    · exact hsub p sub _ (fun l e hs hr => by subst hs; exact hdist p l e hr) true (hq true)
+    · exact hsub p sub _ (fun l e hs hr => by subst hs; exact hdiff p l e hr) false (hq false)
+    · exact hsub p none _ (fun l e hs _ => by cases hs) true (hq true)
+    · exact hsub p none _ (fun l e hs _ => by cases hs) true (hq true)
+  · subst hx
+    have hb : bcast (erun c cap ops).nd [x] = .ok (List.replicate c.dims.length x) := by
+      simp only [bcast, hnd, List.length_singleton]
+      rw [if_neg (Ne.symm hn1)]
+    refine ⟨by simp [agentSetV, agentSet, hg, hb], by simp [agentIaddV, agentIadd, hget, hb],
+      fun i => by simp only [rawWriteV, rawWrite, hb], fun sub => ?_, by simp [inBoundsV, hb, h.cfg, Except.map],
+      fun htor => ⟨fun sub => ?_, fun r => ?_⟩, fun htor => ?_⟩
+    · exact hsub _ sub _ (fun l e hs hr => by subst hs; exact hdiff _ l e hr) false (by simp [queryPoint, hb])
+    · exact hsub _ sub _ (fun l e hs hr => by subst hs; exact hdist _ l e hr) true (by simp [queryPoint, hb, ht, htor])
+    · exact hsub _ none _ (fun l e hs _ => by cases hs) true (by simp [queryPoint, hb, ht, htor])
+    · have hq : queryPoint (erun c cap ops) true [x] = .error .value := by
+        simp only [queryPoint, ht, htor, hnd, List.length_singleton]
+        simp [Ne.symm hn1]
+      exact ⟨by simp [distancesOfV, withPoint, hq], fun r => by simp [agentsInRadiusV, withPoint, hq],
+        fun k => by simp [kNearestV, withPoint, hq]⟩
+  · have hb0 : bcast c.dims.length p = .error .value := by
+      simp only [bcast, hl, if_false]
+      match p, h1 with
+      | [], _ => rfl
+      | [_], h1 => simp at h1
+      | _ :: _ :: _, _ => rfl
+    have hb : bcast (erun c cap ops).nd p = .error .value := by rw [hnd]; exact hb0
+    have hq : ∀ vc, queryPoint (erun c cap ops) vc p = .error .value := by
+      intro vc; simp only [queryPoint, hnd, hb0, hl, if_false]; split <;> rfl
+    refine ⟨by simp [agentSetV, hg, hb], by simp [agentIaddV, hget, hb], fun i hi => ?_,
+      by simp [distancesOfV, withPoint, hq], by simp [diffsOfV, withPoint, hq], fun r => by simp [agentsInRadiusV, withPoint, hq],
+      fun k => by simp [kNearestV, withPoint, hq], by simp [inBoundsV, hb, Except.map], by simp [torusCorrectV, hb, Except.map]⟩
+    have hlt : i < (erun c cap ops).view := by rw [h.inv.view, h.inv.len]; exact hi
+    simp [rawWriteV, hlt, hb]
+
 /-! ### references to `agent_positions` kept by the user -/
 
 /-- Every history: the array `_agent_positions` is never shrunk, and it is replaced (by a strictly larger one) only by
@@ -1030,6 +1126,16 @@ example : agentsInRadius (erun exE 0 exERaw) [990, 0, 0] 10 = [(3, 81)] := by de
 /-- the hypothesis of `C10_exp_positions_inside` holds of a history with an in-bounds write through the view -/
 example : ∀ i p, EOp.raw i p ∈ exEOps ++ [.raw 1 [64, 0, 0]] → inBounds exE.dims p = true := by
   intro i p h; simp [exEOps] at h; obtain ⟨_, rfl⟩ := h; decide
+/-! vectors of the wrong length: `[5]` is taken for `(5, 5, 5)`; two coordinates in a 3-D space are a `ValueError`; the
+distances of a bounded space refuse `[5]` while its difference vectors, and the distances of a torus, broadcast it -/
+def exT : ECfg := { dims := [(0, 64), (0, 64)], torus := true }
+example : (agentSetV (erun exE 0 exEOps) 3 [5]).toOption.map (fun s => agentGet s 3) = some (.ok [5, 5, 5]) := by rfl
+example : (agentSetV (erun exE 0 exEOps) 3 [5, 5]).toOption.map (fun s => agentGet s 3) = none := by rfl
+example : distancesOfV (erun exE 0 exEOps) [5] none = .error .value := by rfl
+example : (diffsOfV (erun exE 0 exEOps) [0] none).toOption.map (·.length) = some 3 := by rfl
+example : distancesOfV (erun exT 0 [.new 1, .set 1 [1, 2]]) [0] none = .ok [(1, 5)] := by rfl
+example : distancesOfV (erun exT 0 [.new 1, .set 1 [1, 2]]) [0, 0, 0] none = .error .value := by rfl
+
 /-! references to `agent_positions` kept by the user: a 1-D space of capacity 1; the reference is taken with one agent in the
 space (`⟨1, 1⟩`: one row, length 1), the second agent re-allocates the array -/
 def exK : ECfg := { dims := [(0, 64)], torus := false }
